@@ -88,6 +88,20 @@ pub fn read_back<S: IndexedFull>(
         if node.name().as_bytes() != key.last().unwrap().as_slice() {
             return ReadBack::Differs(show_key(key), "node name differs".into());
         }
+        // the same entry looked up by its path (names with backslashes, quotes, control characters included)
+        if let Some(ps) = path.to_str() {
+            let plain = key.iter().all(|c| !c.is_empty() && c.as_slice() != b"." && c.as_slice() != b"..");
+            if plain && std::path::Path::new(ps).components().count() == key.len() {
+                match repo.node_from_snapshot_and_path(snap, ps) {
+                    Ok(n) => {
+                        if n.name != node.name || n.content != node.content || n.subtree != node.subtree {
+                            return ReadBack::Differs(show_key(key), format!("lookup by path returns another node (`{}`)", n.name));
+                        }
+                    }
+                    Err(err) => return ReadBack::Differs(show_key(key), format!("listed, but lookup by path fails: {}", crate::common::classify(&err.display_log()))),
+                }
+            }
+        }
         // type
         let type_ok = match (&e.kind, &node.node_type) {
             (Kind::File(_), NodeType::File) | (Kind::Dir, NodeType::Dir) | (Kind::Fifo, NodeType::Fifo) => true,
